@@ -1,7 +1,7 @@
 (* G09 — C09 (a): for every history the relay's windows equal the receiver's ledger and every
    released DATA frame fits both of the receiver's windows. *)
 From FwdLib Require Import Bytes.
-From G09 Require Import Tables H2Relay Ledger FlowBasics WinProofs PairBasics.
+From G09 Require Import Tables H2Relay Ledger FlowBasics WinProofs PairBasics Lift.
 Open Scope N_scope.
 
 Lemma last_setting_acc sid l cur :
@@ -46,6 +46,7 @@ Section Codec.
 
   Notation relay := (relay dstate estate).
   Notation pair := (pair dstate estate).
+  Notation pcore := (pcore dec dresize).
   Notation pstep := (pstep dec enc dresize eresize).
   Notation run := (run dec enc dresize eresize).
 
@@ -54,43 +55,46 @@ Section Codec.
 
   Lemma apply_settings_wl : forall l orders (peer : relay) acc lw,
     WSim (r_flow peer) lw -> QInv (r_flow peer) -> (count4 l <= 1)%nat ->
-    exists em lw',
-      snd (fst (apply_settings dresize eresize l orders peer acc)) = acc ++ em /\
-      wl_recv_all (mkWl (final_init l (l_init lw)) (l_conn lw) (l_adj lw)) (sends em) = (lw', true) /\
-      (snd (apply_settings dresize eresize l orders peer acc) = true ->
-       WSim (r_flow (fst (fst (apply_settings dresize eresize l orders peer acc)))) lw' /\
-       QInv (r_flow (fst (fst (apply_settings dresize eresize l orders peer acc))))).
+    exists scr lw',
+      snd (fst (apply_settings dresize l orders peer acc)) = acc ++ scr /\
+      wl_recv_all (mkWl (final_init l (l_init lw)) (l_conn lw) (l_adj lw)) (wire scr) = (lw', true) /\
+      (snd (apply_settings dresize l orders peer acc) = true ->
+       WSim (r_flow (fst (fst (apply_settings dresize l orders peer acc)))) lw' /\
+       QInv (r_flow (fst (fst (apply_settings dresize l orders peer acc))))).
   Proof.
     induction l as [|[k v] rest IH]; intros orders peer acc lw Hs Hq Hc.
-    - exists [], lw. cbn [apply_settings fst snd sends flat_map wl_recv_all]. unfold final_init. cbn [last_setting].
+    - exists [], lw. cbn [apply_settings fst snd wire flat_map wl_recv_all]. unfold final_init. cbn [last_setting].
       rewrite app_nil_r, wled_eta. auto.
     - cbn [apply_settings].
       destruct (settings_validated && negb (setting_valid k v)).
       { exists [], (mkWl (final_init ((k, v) :: rest) (l_init lw)) (l_conn lw) (l_adj lw)).
-        cbn [fst snd sends flat_map wl_recv_all]. rewrite app_nil_r. repeat split; discriminate. }
+        cbn [fst snd wire flat_map wl_recv_all]. rewrite app_nil_r. repeat split; discriminate. }
       cbn [count4] in Hc.
       destruct (k =? 1) eqn:E1.
       { apply N.eqb_eq in E1. subst k. cbn [N.eqb Pos.eqb] in Hc.
-        specialize (IH orders (mkRelay (r_flow peer) (r_cont peer) (r_hbuf peer)
+        destruct (IH orders (mkRelay (r_flow peer) (r_cont peer) (r_hbuf peer)
                                  (if table_size_resizes_decoder then dresize (r_dst peer) v else r_dst peer)
-                                 (eresize (r_est peer) v)) acc lw Hs Hq Hc).
-        unfold final_init in *. cbn [last_setting N.eqb Pos.eqb]. exact IH. }
+                                 (r_est peer)) (acc ++ [OResize v]) lw Hs Hq Hc) as [scr [lw' [Ha [Hr Hok]]]].
+        exists (OResize v :: scr), lw'. split; [rewrite Ha, <- app_assoc; reflexivity|]. split; [|exact Hok].
+        unfold final_init in *. cbn [last_setting N.eqb Pos.eqb wire flat_map wire1 app]. exact Hr. }
       destruct (k =? 4) eqn:E4.
       { apply N.eqb_eq in E4. subst k.
         assert (Hr0 : count4 rest = O) by lia.
         pose proof (update_init_wl Hgate Hdeb Hconn v (hd [] orders) (r_flow peer) lw Hs Hq) as [l1 [Hr1 [Hs1 Hq1]]].
         destruct (update_init v (hd [] orders) (r_flow peer)) as [fl e] eqn:Eu. cbn [fst snd] in *.
-        specialize (IH (tl orders) (with_flow peer fl) (acc ++ e) l1 Hs1 Hq1 ltac:(lia)).
-        destruct IH as [em [lw' [Ha [Hr Hok]]]].
-        exists (e ++ em), lw'. split; [rewrite Ha, app_assoc; reflexivity|]. split; [|exact Hok].
+        specialize (IH (tl orders) (with_flow peer fl) (acc ++ oq e) l1 Hs1 Hq1 ltac:(lia)).
+        destruct IH as [scr [lw' [Ha [Hr Hok]]]].
+        exists (oq e ++ scr), lw'. split; [rewrite Ha, app_assoc; reflexivity|]. split; [|exact Hok].
         unfold final_init in *. cbn [last_setting N.eqb Pos.eqb]. rewrite last_setting_acc, (last_setting_none rest Hr0).
         rewrite (last_setting_none rest Hr0), wled_eta in Hr.
-        unfold sends in *. rewrite flat_map_app, wl_recv_all_app, Hr1, Hr. reflexivity. }
+        rewrite wire_app, wire_oq, wl_recv_all_app, Hr1, Hr. reflexivity. }
       assert (Hfi : final_init ((k, v) :: rest) (l_init lw) = final_init rest (l_init lw)).
       { unfold final_init. cbn [last_setting]. rewrite E4. reflexivity. }
       rewrite Hfi.
       destruct (k =? 5).
-      + exact (IH orders (with_flow peer (update_max v (r_flow peer))) acc lw Hs Hq Hc).
+      + destruct (IH orders (with_flow peer (update_max v (r_flow peer))) (acc ++ [OSetMax v]) lw Hs Hq Hc) as [scr [lw' [Ha [Hr Hok]]]].
+        exists (OSetMax v :: scr), lw'. split; [rewrite Ha, <- app_assoc; reflexivity|]. split; [|exact Hok].
+        cbn [wire flat_map wire1 app]. exact Hr.
       + exact (IH orders peer acc lw Hs Hq Hc).
   Qed.
 
@@ -123,12 +127,12 @@ Section Codec.
   Lemma step_wl_from (p : pair) from f orders l :
     frame_wf f ->
     WSim (r_flow (toward from p)) l -> QInv (r_flow (toward from p)) ->
-    exists l', wl_step from l (tstep_of from f orders (pstep p from f orders)) = (l', true) /\
-      (s_status (pstep p from f orders) = Ok ->
-       WSim (r_flow (toward from (s_pair (pstep p from f orders)))) l' /\
-       QInv (r_flow (toward from (s_pair (pstep p from f orders))))).
+    exists l', wl_step from l (tstep_of from f orders (pcore p from f orders)) = (l', true) /\
+      (s_status (pcore p from f orders) = Ok ->
+       WSim (r_flow (toward from (s_pair (pcore p from f orders)))) l' /\
+       QInv (r_flow (toward from (s_pair (pcore p from f orders))))).
   Proof.
-    intros Hwf Hs Hq. rewrite wl_step_from. unfold pstep. cbv zeta.
+    intros Hwf Hs Hq. rewrite wl_step_from. unfold pcore. cbv zeta.
     destruct f as [id es d flen|id es eh pr frag|id eh frag|id pm eh frag|id pr|id code|ack st|ack d|last code dbg|id inc|].
     - (* DATA: only WINDOW_UPDATE frames go back *)
       destruct (data_pieces _ _ id d es) as [ps|].
@@ -139,22 +143,22 @@ Section Codec.
         eexists; split; [reflexivity|intros _; split; assumption].
     - destruct eh; [|quiet_from Hs Hq].
       destruct (dec _ frag) as [[fields|] dst']; [|quiet_from Hs Hq].
-      destruct (r_header _ _ _ _ _ _) as [[[me' em] q]|]; quiet_from Hs Hq.
+      destruct (r_header _ _ _ _ _) as [[[me' em] q]|]; quiet_from Hs Hq.
     - destruct eh; [|quiet_from Hs Hq].
       destruct (dec _ _) as [[fields|] dst']; [|quiet_from Hs Hq].
       cbn [r_cont]. destruct (r_cont _); [|quiet_from Hs Hq].
-      destruct (complete _ _ _ _) as [[[me' em] q]|]; quiet_from Hs Hq.
+      destruct (complete _ _ _) as [[[me' em] q]|]; quiet_from Hs Hq.
     - destruct eh; [|quiet_from Hs Hq].
       destruct (dec _ frag) as [[fields|] dst']; [|quiet_from Hs Hq].
-      destruct (r_push _ _ _ _ _) as [[[me' em] q]|]; quiet_from Hs Hq.
+      destruct (r_push _ _ _ _) as [[[me' em] q]|]; quiet_from Hs Hq.
     - destruct (enqueue_emit _ _) as [fl em]. quiet_from Hs Hq.
     - destruct (enqueue_emit _ _) as [fl em]. quiet_from Hs Hq.
     - destruct ack; [quiet_from Hs Hq|].
       cbn [frame_wf] in Hwf.
       destruct (apply_settings_wl st orders (toward from p) [] l Hs Hq Hwf) as [em [lw' [Ha [Hr Hok]]]].
-      destruct (apply_settings dresize eresize st orders (toward from p) []) as [[peer' acc'] ok].
+      destruct (apply_settings dresize st orders (toward from p) []) as [[peer' acc'] ok].
       cbn [fst snd app] in *. subst acc'.
-      destruct ok; rewrite res_toward_from, res_to_from, res_status, wire_oq; cbn [wl_sent];
+      destruct ok; rewrite res_toward_from, res_to_from, res_status; cbn [wl_sent];
         unfold final_init in Hr; rewrite Hr; eexists; (split; [reflexivity|]).
       + intros _. exact (Hok eq_refl).
       + discriminate.
@@ -170,12 +174,12 @@ Section Codec.
   Lemma step_wl_other (p : pair) from f orders l :
     frame_wf f ->
     WSim (r_flow (toward (other from) p)) l -> QInv (r_flow (toward (other from) p)) ->
-    exists l', wl_step (other from) l (tstep_of from f orders (pstep p from f orders)) = (l', true) /\
-      (s_status (pstep p from f orders) = Ok ->
-       WSim (r_flow (toward (other from) (s_pair (pstep p from f orders)))) l' /\
-       QInv (r_flow (toward (other from) (s_pair (pstep p from f orders))))).
+    exists l', wl_step (other from) l (tstep_of from f orders (pcore p from f orders)) = (l', true) /\
+      (s_status (pcore p from f orders) = Ok ->
+       WSim (r_flow (toward (other from) (s_pair (pcore p from f orders)))) l' /\
+       QInv (r_flow (toward (other from) (s_pair (pcore p from f orders))))).
   Proof.
-    intros Hwf Hs Hq. rewrite wl_step_other. unfold pstep. cbv zeta.
+    intros Hwf Hs Hq. rewrite wl_step_other. unfold pcore. cbv zeta.
     set (me := toward (other from) p) in *.
     destruct f as [id es d flen|id es eh pr frag|id eh frag|id pm eh frag|id pr|id code|ack st|ack d|last code dbg|id inc|];
       cbn [frame_wf] in Hwf.
@@ -189,7 +193,7 @@ Section Codec.
       eexists; split; [reflexivity|intros _; split; assumption].
     - destruct eh; [|quiet_other Hs Hq].
       destruct (dec _ frag) as [[fields|] dst']; [|quiet_other Hs Hq].
-      destruct (r_header _ _ _ _ _ _) as [[[me' em] q]|] eqn:Eh; [|quiet_other Hs Hq].
+      destruct (r_header _ _ _ _ _) as [[[me' em] q]|] eqn:Eh; [|quiet_other Hs Hq].
       apply r_header_flow in Eh as [Ee [Hid _]]. cbn [r_flow] in Ee.
       pose proof (enqueue_emit_wl Hgate Hdeb (r_flow me) l q ltac:(congruence) Hs Hq) as [l' [Hr [Hs' Hq']]].
       rewrite Ee in Hr, Hs', Hq'. cbn [fst snd] in *.
@@ -198,7 +202,7 @@ Section Codec.
     - destruct eh; [|quiet_other Hs Hq].
       destruct (dec _ _) as [[fields|] dst']; [|quiet_other Hs Hq].
       cbn [r_cont]. destruct (r_cont me) eqn:Ec; [|quiet_other Hs Hq].
-      destruct (complete _ _ _ _) as [[[me' em] q]|] eqn:Eh; [|quiet_other Hs Hq].
+      destruct (complete _ _ _) as [[[me' em] q]|] eqn:Eh; [|quiet_other Hs Hq].
       apply complete_flow in Eh as [Ee [Hid _]]. cbn [r_flow] in Ee.
       pose proof (enqueue_emit_wl Hgate Hdeb (r_flow me) l q ltac:(congruence) Hs Hq) as [l' [Hr [Hs' Hq']]].
       rewrite Ee in Hr, Hs', Hq'. cbn [fst snd] in *.
@@ -206,7 +210,7 @@ Section Codec.
       eexists; split; [reflexivity|intros _; split; assumption].
     - destruct eh; [|quiet_other Hs Hq].
       destruct (dec _ frag) as [[fields|] dst']; [|quiet_other Hs Hq].
-      destruct (r_push _ _ _ _ _) as [[[me' em] q]|] eqn:Eh; [|quiet_other Hs Hq].
+      destruct (r_push _ _ _ _) as [[[me' em] q]|] eqn:Eh; [|quiet_other Hs Hq].
       apply r_push_flow in Eh as [Ee [Hid _]]. cbn [r_flow] in Ee.
       pose proof (enqueue_emit_wl Hgate Hdeb (r_flow me) l q ltac:(congruence) Hs Hq) as [l' [Hr [Hs' Hq']]].
       rewrite Ee in Hr, Hs', Hq'. cbn [fst snd] in *.
@@ -221,7 +225,7 @@ Section Codec.
       rewrite res_toward_other, res_to_other, res_status, wire_oq, Hr.
       eexists; split; [reflexivity|intros _; split; assumption].
     - destruct ack; [quiet_other Hs Hq|].
-      destruct (apply_settings _ _ _ _ _ _) as [[peer' acc'] ok]. destruct ok; quiet_other Hs Hq.
+      destruct (apply_settings _ _ _ _ _) as [[peer' acc'] ok]. destruct ok; quiet_other Hs Hq.
     - quiet_other Hs Hq.
     - quiet_other Hs Hq.
     - destruct (update_window _ _ _ _) as [fl em]. quiet_other Hs Hq.
@@ -230,6 +234,23 @@ Section Codec.
   Definition hist_wf (evs : list event) : Prop := Forall (fun e => frame_wf (e_frame e)) evs.
   Definition all_ok (tr : list tstep) : Prop := Forall (fun t => t_status t = Ok) tr.
 
+  Lemma step_wl_core (p : pair) from f orders x l :
+    frame_wf f ->
+    WSim (r_flow (toward x p)) l -> QInv (r_flow (toward x p)) ->
+    exists l', wl_step x l (tstep_of from f orders (pcore p from f orders)) = (l', true) /\
+      (s_status (pcore p from f orders) = Ok ->
+       WSim (r_flow (toward x (s_pair (pcore p from f orders)))) l' /\
+       QInv (r_flow (toward x (s_pair (pcore p from f orders))))).
+  Proof.
+    destruct (side_cases from x) as [-> | ->]; [apply step_wl_from|apply step_wl_other].
+  Qed.
+
+  Lemma wl_step_any x from f orders s l :
+    wl_step x l (tstep_of from f orders s) =
+    wl_recv_all (if side_eqb from x then wl_sent l f else l) (wire (s_to x s)).
+  Proof. unfold wl_step, frames_to. rewrite oframes_to_tstep. reflexivity. Qed.
+
+  (* the same for the whole step: preparing the released frames changes nothing the credit ledger sees *)
   Lemma step_wl (p : pair) from f orders x l :
     frame_wf f ->
     WSim (r_flow (toward x p)) l -> QInv (r_flow (toward x p)) ->
@@ -238,7 +259,13 @@ Section Codec.
        WSim (r_flow (toward x (s_pair (pstep p from f orders)))) l' /\
        QInv (r_flow (toward x (s_pair (pstep p from f orders))))).
   Proof.
-    destruct (side_cases from x) as [-> | ->]; [apply step_wl_from|apply step_wl_other].
+    intros Hwf Hs Hq. destruct (step_wl_core p from f orders x l Hwf Hs Hq) as [l0 [H0 Hn0]].
+    rewrite wl_step_any in *.
+    destruct (pstep_out dstate estate dec enc dresize eresize p from f orders x) as [Hp | [He Hd]].
+    - exists l0. rewrite (Prep_wl _ _ _ Hp). split; [exact H0|].
+      intro Hok. rewrite (proj1 (pstep_flow dstate estate dec enc dresize eresize p from f orders x)).
+      apply Hn0. apply (pstep_ok dstate estate dec enc dresize eresize). exact Hok.
+    - rewrite He. cbn [wire flat_map wl_recv_all]. eexists. split; [reflexivity|]. rewrite Hd. discriminate.
   Qed.
 
   Lemma run_wl : forall evs (p : pair) x l,
